@@ -67,7 +67,11 @@ def make_frame(rng, ctx_rows, allow_collisions=True, force_mode=None):
         nm["s"] = names1[-1]
     elif mode == "punct":
         nm.update({"x": "peak flux (mJy)", "y": "k=v", "n1": "light curve", "n2": "n,2;{z}", "s": "s t"})
-    nf = NestedFrame({nm["x"]: list(range(n)), nm["y"]: pd.array([rng.choice([0.5, None, 2.5]) for _ in range(n)], dtype=pd.ArrowDtype(pa.float64()))}, index=index)
+    # base columns: row ids, doubles with nulls, and identifiers above 2^53 with nulls (an integer column that goes through a
+    # double on its way - numpy has no integer null - comes back with other values)
+    nf = NestedFrame({nm["x"]: list(range(n)), nm["y"]: pd.array([rng.choice([0.5, None, 2.5]) for _ in range(n)], dtype=pd.ArrowDtype(pa.float64())),
+                      "big id": pd.array([rng.choice([None, (1 << 60) + 2 * j + 1, -(1 << 58) - j]) for j in range(n)], dtype=pd.ArrowDtype(pa.int64()))},
+                     index=index)
     nf[nm["n1"]] = pd.Series(inp["arr"], index=index, name=nm["n1"])
     sch2 = [(nm["s"], "string"), (nm["k"], "int64")]
     rows2 = gen.gen_rows(rng, sch2, n, max_len=3)
@@ -159,7 +163,7 @@ def generate(ctx):
                 term, impl_repr = f"[true; {cq_bool(r[0] == 'ok')}; true; true]", str(r)
             elif kind in ("select", "full_and_partial", "select_reject"):
                 # a selection: each nest either in full or through some of its fields (never both, unless that is the point), order shuffled
-                sel = [c for c in [BX, BY] if rng.random() < 0.6]
+                sel = [c for c in [BX, BY, "big id"] if rng.random() < 0.6]
                 for nest, fields in ((N1, names1), (N2, [nm["s"], nm["k"]])):
                     mode = rng.choice(["skip", "full", "partial", "partial"])
                     if mode == "full":
